@@ -178,3 +178,34 @@ func VH_C05(t, n, B, mode int) {
 
 func vKnownC05(t int, tm vC05Tmpl, st *vStore, batch bool) {
 }
+
+// aliases inside aggregate arguments, GROUP BY and ORDER BY: aliased text vs expanded text
+var vC05AggPairs = [][2]string{
+	{"select int(value) as v, sum(v) as s where v > 0 group by v", "select int(value) as v, sum(int(value)) as s where int(value) > 0 group by v"},
+	{"select upper(key) as u, count(1), group_concat(u, ',') where u != '' group by u", "select upper(key) as u, count(1), group_concat(upper(key), ',') where upper(key) != '' group by u"},
+	{"select strlen(key) as l, int(value) as v, max(v), min(v + 1) where key >= '' group by l, v", "select strlen(key) as l, int(value) as v, max(int(value)), min(int(value) + 1) where key >= '' group by l, v"},
+	{"select strlen(value) as l, sum(int(value)) as s where l > 0 group by l order by s desc", "select strlen(value) as l, sum(int(value)) as s where strlen(value) > 0 group by l order by s desc"},
+	{"select key, int(value) as v where v >= 0 order by v desc, key", "select key, int(value) as v where int(value) >= 0 order by v desc, key"},
+	{"select int(value) as v, avg(v * 2) where v != 1 group by v", "select int(value) as v, avg(int(value) * 2) where int(value) != 1 group by v"},
+}
+
+func VN_C05_AGG(tier int) int { return len(vC05AggPairs) }
+
+func VH_C05_AGG(pi, n, B, mode int) {
+	st := vSymStore(n, 1, 1, 1, 2, "ab", "012")
+	PlanBatchSize = B
+	batch := mode == 1
+	qa, qe := vC05AggPairs[pi][0], vC05AggPairs[pi][1]
+	EnableFieldCache = true
+	ra, _, err := vRun(qa, st, batch, n)
+	vAssert(err == nil && ra.err == nil, "C05/aliased-query-fails")
+	re, _, err := vRun(qe, st, batch, n)
+	vAssert(err == nil && re.err == nil, "harness/C05-expanded-query-fails")
+	vAssert(vSameRows(ra.rows, re.rows), "C05/aliased-rows-differ-from-alias-expanded-rows")
+	EnableFieldCache = false
+	rc, _, err := vRun(qa, st, batch, n)
+	EnableFieldCache = true
+	vAssert(err == nil && rc.err == nil, "C05/aliased-query-fails-with-cache-off")
+	vAssert(vSameRows(ra.rows, rc.rows), "C05/cache-switch-changes-the-result")
+	vCover("compared")
+}
